@@ -372,3 +372,43 @@ def history(rng, kind, tier):
             npool += 1
     return {"kind": kind, "ts": ts, "te": te, "grid": grid, "dyadic": dyadic, "int_valued": int_valued,
             "funcs": funcs, "ops": ops}
+
+
+# ----------------------------------------------------------------------------------------- W12 recorded data
+_REAL = {}
+
+
+def real_trains(repo):
+    """the spike trains shipped with the repository's tests (edges [0, 4000]); parsed here, not through pyspike"""
+    if repo in _REAL:
+        return _REAL[repo]
+    import os
+    out = []
+    for fn in ("PySpike_testdata.txt", "SPIKE_Sync_Test.txt"):
+        path = os.path.join(repo, "test", fn)
+        try:
+            with open(path) as f:
+                for line in f:
+                    if line.startswith("#") or len(line) <= 1:
+                        continue
+                    vals = sorted({float(v) for v in line.split()})
+                    vals = [v for v in vals if 0.0 <= v <= 4000.0]
+                    if vals:
+                        out.append(vals)
+        except OSError:
+            pass
+    _REAL[repo] = out
+    return out
+
+
+def real_case(rng, repo, n_trains=2, max_spikes=40):
+    pool = real_trains(repo)
+    if len(pool) < n_trains:
+        return None
+    trains = []
+    for s in rng.sample(pool, n_trains):
+        if len(s) > max_spikes:
+            k = rng.randrange(len(s) - max_spikes + 1)
+            s = s[k:k + max_spikes]
+        trains.append(list(s))
+    return {"ts": 0.0, "te": 4000.0, "step": 250.0, "dyadic": False, "trains": trains}
